@@ -135,3 +135,39 @@ def raw_stats(events, acc):
         acc.count('key_index_reused')
     if two:
         acc.count('two_live_keys')
+
+
+def strip_taps(spec):
+    out = []
+    for o in spec:
+        if o[0] == 'tap':
+            continue
+        out.append([strip_taps(a) if (isinstance(a, list) and a and isinstance(a[0], list)) else a for a in o])
+    return out
+
+
+def unit_test_api(spec, items, expected=None, mux=True):
+    """Plain Python script replaying one case with rx / rxsci only (named user functions come from mc.opspecs.FUNCS)."""
+    spec = strip_taps(spec)
+    src = opspecs.to_source(spec, 2)
+    head = ("import sys\nsys.path[:0] = ['/repo', '/verif']\nimport rx\nimport rxsci as rs\n"
+            "from mc.opspecs import FUNCS as F      # named, pure user functions only\n\nout = []\n")
+    if mux:
+        body = "rx.from_(%r).pipe(\n    rs.state.with_memory_store([\n%s    ]),\n)" % (items, src)
+    else:
+        body = "rx.from_(%r).pipe(\n%s)" % (items, opspecs.to_source(spec, 1))
+    tail = ".subscribe(on_next=out.append, on_error=lambda e: out.append(('on_error', repr(e))))\nprint(out)\n"
+    if expected is not None:
+        tail += "expected = %r\nassert out == expected, 'expected %%r' %% (expected,)\n" % (expected,)
+    return head + body + tail
+
+
+def unit_test_raw(spec, events, expected=None):
+    spec = strip_taps(spec)
+    src = opspecs.to_source(spec, 2)
+    return ("import sys\nsys.path[:0] = ['/repo', '/verif']\nimport rx\nimport rxsci as rs\n"
+            "from mc.opspecs import FUNCS as F\nfrom mc.drivers import mux_events, compact, new_store\n\n"
+            "store = new_store()\nout = []\nrx.from_(mux_events(%r, store)).pipe(\n    rs.cast_as_mux_observable(),\n"
+            "    rs.state.with_store(store, [\n%s    ]),\n).subscribe(on_next=lambda i: out.append(compact(i)), on_error=lambda e: out.append(('on_error', repr(e))))\n"
+            "print(out)\n%s" % ([tuple(e) for e in events], src,
+                                  ("expected = %r\nassert out == expected, 'expected %%r' %% (expected,)\n" % (expected,)) if expected is not None else ''))
